@@ -366,7 +366,7 @@ func (m *monitor) run(line string) string {
 			led(t[2]).Add(led(t[2]), u(t[3]))
 		case "refund":
 			amt := u(t[3])
-			if t[3] == maxU64 {
+			if amt.Cmp(u(maxU64)) == 0 {
 				amt = new(big.Int).Set(led(t[2])) // "everything" = what the ledger says is there, not what the code reports
 			}
 			led(t[2]).Sub(led(t[2]), amt)
